@@ -172,16 +172,29 @@ enum Stmt {
     Write { text: String, rel: bool, id_free: bool },
     Checkpoint(String, u64),
     Rollback(String),
+    /// ROLLBACK TO the checkpoint NAMED like the first character of the id of the newest checkpoint
+    RollbackNamedLikeNewestId,
     List,
 }
 
-fn new_router(max: usize, with_cp: bool) -> QueryRouter {
-    let mut r = QueryRouter::with_shared_store(TensorStore::new());
+#[derive(Clone, Copy, Debug)]
+struct Opts { max: usize, auto: bool, bloom: bool }
+
+fn new_router(o: Opts, with_cp: bool) -> QueryRouter {
+    let store = if o.bloom { TensorStore::with_default_bloom_filter() } else { TensorStore::new() };
+    let mut r = QueryRouter::with_shared_store(store);
     if with_cp {
         r.init_blob().unwrap();
-        r.init_checkpoint_with_config(CheckpointConfig::default().with_auto_checkpoint(false).with_interactive_confirm(false).with_max_checkpoints(max)).unwrap();
+        r.init_checkpoint_with_config(CheckpointConfig::default().with_auto_checkpoint(o.auto).with_interactive_confirm(false).with_max_checkpoints(o.max)).unwrap();
     }
     r
+}
+/// (id, name, is_auto) of every listed checkpoint
+fn cat_full(r: &QueryRouter) -> Vec<(String, String, bool)> {
+    match exec(r, "CHECKPOINTS LIMIT 100") {
+        Ok(QueryResult::CheckpointList(l)) => l.iter().map(|c| (c.id.clone(), c.name.clone(), c.is_auto)).collect(),
+        _ => vec![],
+    }
 }
 
 fn gen_write(r: &mut Rng, dist: &mut Dist) -> Stmt {
@@ -215,11 +228,10 @@ fn gen_write(r: &mut Rng, dist: &mut Dist) -> Stmt {
     Stmt::Write { text, rel, id_free }
 }
 
-fn gen_script(r: &mut Rng, dist: &mut Dist) -> (usize, Vec<Stmt>) {
-    let max = *r.pick(&[1usize, 2, 3, 10]);
+fn gen_script(r: &mut Rng, dist: &mut Dist) -> (Opts, Vec<Stmt>) {
+    let opts = Opts { max: *r.pick(&[1usize, 2, 3, 10]), auto: r.chance(1, 3), bloom: r.chance(1, 2) };
     let mut out = vec![];
     let mut names: Vec<String> = vec![];
-    let mut clock = 1000u64;
     // a table early on makes relational content likely
     if r.chance(3, 4) {
         out.push(Stmt::Write { text: "CREATE TABLE t0 (id INT, name TEXT)".into(), rel: true, id_free: true });
@@ -228,11 +240,10 @@ fn gen_script(r: &mut Rng, dist: &mut Dist) -> (usize, Vec<Stmt>) {
     for _ in 0..n {
         let k = r.below(100);
         if k < 16 {
-            clock += r.range(1, 5);
             let nm = format!("c{}", names.len() + 1);
             names.push(nm.clone());
             dist.hit("stmt.checkpoint");
-            out.push(Stmt::Checkpoint(nm, clock));
+            out.push(Stmt::Checkpoint(nm, r.range(1, 5)));
         } else if k < 28 && !names.is_empty() {
             dist.hit("stmt.rollback");
             out.push(Stmt::Rollback(r.pick(&names).clone()));
@@ -246,16 +257,18 @@ fn gen_script(r: &mut Rng, dist: &mut Dist) -> (usize, Vec<Stmt>) {
             out.push(gen_write(r, dist));
         }
     }
-    (max, out)
+    (opts, out)
 }
 
 /// runs one script; returns (coq term, human text, nontrivial)
-fn run_script(max: usize, stmts: &[Stmt], dist: &mut Dist) -> (String, String, bool) {
-    let r = new_router(max, true);
+fn run_script(o: Opts, stmts: &[Stmt], dist: &mut Dist) -> (String, String, bool) {
+    let max = o.max;
+    let r = new_router(o, true);
     let store = r.vector().store().clone();
     let (mut keys, mut vals, mut names, mut dig) = (Intern(HashMap::new()), Intern(HashMap::new()), Intern(HashMap::new()), Intern(HashMap::new()));
     let mut kv_prev = kv_dump(&store);
     let mut rel_prev = rel_dump(&store);
+    let mut dig_prev = { let (a, bq, c) = battery(&r); (dig.id(&a), dig.id(&bq), dig.id(&c)) };
     // logical history of write statements defining the state the property promises
     let mut hist: Vec<String> = vec![];
     let mut hist_at: HashMap<String, Vec<String>> = HashMap::new();
@@ -263,13 +276,31 @@ fn run_script(max: usize, stmts: &[Stmt], dist: &mut Dist) -> (String, String, b
     let mut steps = vec![];
     let mut human = vec![];
     let mut saw_rb_ok = false;
+    let mut clock = 1000u64;                       // checkpoint creation second (through the clock hook)
+    let mut seen_ids: std::collections::HashSet<String> = Default::default();
+    let mut newest_id = String::new();
     for s in stmts {
+        let mut pre_step: Option<String> = None;  // an automatic checkpoint the statement took first
         let sop = match s {
             Stmt::Write { text, rel, id_free } => {
+                clock += 1;
+                tensor_checkpoint::verif_clock::set(Some(clock));
                 let ok_impl = exec(&r, text).is_ok();
+                if o.auto {
+                    // did the statement take an automatic checkpoint (before doing its work)?
+                    for (id, name, is_auto) in cat_full(&r) {
+                        if seen_ids.insert(id.clone()) {
+                            dist.hit(if is_auto { "checkpoint.auto" } else { "checkpoint.unexpected" });
+                            newest_id = id;
+                            hist_at.insert(name.clone(), hist.clone());
+                            human.push(format!("(auto checkpoint '{name}' @{clock})"));
+                            pre_step = Some(format!("SCheckpoint {} {} true", names.id(&name), clock));
+                        }
+                    }
+                }
                 // what the same statement does on a database that really is in the promised state
                 let ok_ref = if rolled_back && *id_free {
-                    let rr = new_router(max, false);
+                    let rr = new_router(o, false);
                     for h in &hist { let _ = exec(&rr, h); }
                     exec(&rr, text).is_ok()
                 } else {
@@ -282,26 +313,34 @@ fn run_script(max: usize, stmts: &[Stmt], dist: &mut Dist) -> (String, String, b
                 human.push(format!("{text} [{}]", if ok_impl { "ok" } else { "err" }));
                 t
             }
-            Stmt::Checkpoint(name, now) => {
-                tensor_checkpoint::verif_clock::set(Some(*now));
-                let ok = exec(&r, &format!("CHECKPOINT '{name}'")).is_ok();
+            Stmt::Checkpoint(name, inc) => {
+                clock += *inc;
+                let now = clock;
+                tensor_checkpoint::verif_clock::set(Some(now));
+                let res = exec(&r, &format!("CHECKPOINT '{name}'"));
+                let ok = res.is_ok();
+                if let Ok(QueryResult::Value(v)) = &res {
+                    if let Some(id) = v.strip_prefix("Checkpoint created: ") { newest_id = id.to_string(); seen_ids.insert(id.to_string()); }
+                }
                 hist_at.insert(name.clone(), hist.clone());
+                dist.hit("checkpoint.manual");
                 human.push(format!("CHECKPOINT '{name}' @{now} [{}]", if ok { "ok" } else { "err" }));
                 format!("SCheckpoint {} {} {}", names.id(name), now, b(ok))
             }
-            Stmt::Rollback(name) => {
+            Stmt::Rollback(_) | Stmt::RollbackNamedLikeNewestId => {
+                let name = match s { Stmt::Rollback(n) => n.clone(), _ => newest_id.chars().next().map(|c| c.to_string()).unwrap_or_else(|| "0".into()) };
                 let res = exec(&r, &format!("ROLLBACK TO '{name}'"));
                 let ok = res.is_ok();
                 if ok {
                     rolled_back = true;
                     saw_rb_ok = true;
-                    if let Some(h) = hist_at.get(name) { hist = h.clone(); }
+                    if let Some(h) = hist_at.get(&name) { hist = h.clone(); }
                     dist.hit("rollback.ok");
                 } else {
                     dist.hit("rollback.err");
                 }
                 human.push(format!("ROLLBACK TO '{name}' [{}]", match &res { Ok(_) => "ok".to_string(), Err(e) => e.clone() }));
-                format!("SRollback {} {}", names.id(name), b(ok))
+                format!("SRollback {} {}", names.id(&name), b(ok))
             }
             Stmt::List => {
                 human.push("CHECKPOINTS".into());
@@ -312,13 +351,19 @@ fn run_script(max: usize, stmts: &[Stmt], dist: &mut Dist) -> (String, String, b
         let rl = rel_dump(&store);
         let (qr, qg, qv) = battery(&r);
         let cat = cat_names(&r);
-        let obs = format!("({}, {}, {}, {}, {}, {})", dig.id(&qr), dig.id(&qg), dig.id(&qv), dump_coq(&kv, &mut keys, &mut vals), dump_coq(&rl, &mut keys, &mut vals), list(cat.iter().map(|c| format!("{}", names.id(c)))));
+        let catc = list(cat.iter().map(|c| format!("{}", names.id(c))));
+        if let Some(pre) = pre_step {
+            // the automatic checkpoint saw the database as it was BEFORE the statement's own change
+            steps.push(format!("({pre}, ({}, {}, {}, {}, {}, {catc}))", dig_prev.0, dig_prev.1, dig_prev.2, dump_coq(&kv_prev, &mut keys, &mut vals), dump_coq(&rel_prev, &mut keys, &mut vals)));
+        }
+        dig_prev = (dig.id(&qr), dig.id(&qg), dig.id(&qv));
+        let obs = format!("({}, {}, {}, {}, {}, {catc})", dig_prev.0, dig_prev.1, dig_prev.2, dump_coq(&kv, &mut keys, &mut vals), dump_coq(&rl, &mut keys, &mut vals));
         steps.push(format!("({sop}, {obs})"));
         kv_prev = kv;
         rel_prev = rl;
     }
     tensor_checkpoint::verif_clock::set(None);
-    (format!("({}, {})", max, list(steps)), format!("max={max} script=[{}]", human.join("; ")), saw_rb_ok)
+    (format!("({}, {})", max, list(steps)), format!("max={max} auto={} bloom={} script=[{}]", o.auto, o.bloom, human.join("; ")), saw_rb_ok)
 }
 
 fn w(text: &str, rel: bool) -> Stmt {
@@ -334,26 +379,48 @@ fn main() {
     let mut script = CaseWriter::new(&args.out, "script");
     let mut ties = CaseWriter::new(&args.out, "ties");
 
-    // ---- corpus: the reproduced findings of DESIGN section 5, then a retention script
-    let corpus: Vec<(usize, Vec<Stmt>)> = vec![
+    // ---- corpus: the reproduced findings of DESIGN section 5, retention, automatic checkpoints, short hex names
+    let plain = |max: usize| Opts { max, auto: false, bloom: false };
+    let cp = |n: &str| Stmt::Checkpoint(n.into(), 1);
+    let mut corpus: Vec<(Opts, Vec<Stmt>)> = vec![
         // F-C08-restore
-        (10, vec![w("CREATE TABLE t0 (id INT, name TEXT)", true), w("INSERT INTO t0 (id, name) VALUES (1, 'Alice')", true), Stmt::Checkpoint("c1".into(), 1001), w("INSERT INTO t0 (id, name) VALUES (2, 'Bob')", true), Stmt::Rollback("c1".into()), w("INSERT INTO t0 (id, name) VALUES (3, 'Z')", true)]),
+        (plain(10), vec![w("CREATE TABLE t0 (id INT, name TEXT)", true), w("INSERT INTO t0 (id, name) VALUES (1, 'Alice')", true), cp("c1"), w("INSERT INTO t0 (id, name) VALUES (2, 'Bob')", true), Stmt::Rollback("c1".into()), w("INSERT INTO t0 (id, name) VALUES (3, 'Z')", true)]),
         // F-C08-selfwipe
-        (10, vec![w("EMBED STORE 'k1' [1.0, 0.0, 0.0]", false), Stmt::Checkpoint("c1".into(), 1001), w("EMBED STORE 'k2' [0.0, 1.0, 0.0]", false), Stmt::Checkpoint("c2".into(), 1002), Stmt::Rollback("c1".into()), Stmt::List, Stmt::Rollback("c2".into())]),
-        // graph + vector only: rollback restores them (data added later gone, deleted later back)
-        (10, vec![w("NODE CREATE person { name: 'a' }", false), w("NODE CREATE person { name: 'b' }", false), w("EDGE CREATE 1 -> 2 : knows", false), w("EMBED STORE 'k0' [1.0, 0.0, 0.5]", false), Stmt::Checkpoint("c1".into(), 1001), w("NODE DELETE 1", false), w("EMBED DELETE 'k0'", false), w("EMBED STORE 'k1' [0.0, 2.0, 0.5]", false), w("NODE CREATE person { name: 'c' }", false), Stmt::Rollback("c1".into()), w("EMBED STORE 'k2' [2.0, 2.0, 0.5]", false)]),
+        (plain(10), vec![w("EMBED STORE 'k1' [1.0, 0.0, 0.0]", false), cp("c1"), w("EMBED STORE 'k2' [0.0, 1.0, 0.0]", false), cp("c2"), Stmt::Rollback("c1".into()), Stmt::List, Stmt::Rollback("c2".into())]),
+        // graph + vector only: rollback restores them (data added later gone, deleted later back); plain and Bloom-filter store
+        (plain(10), vec![w("NODE CREATE person { name: 'a' }", false), w("NODE CREATE person { name: 'b' }", false), w("EDGE CREATE 1 -> 2 : knows", false), w("EMBED STORE 'k0' [1.0, 0.0, 0.5]", false), cp("c1"), w("NODE DELETE 1", false), w("EMBED DELETE 'k0'", false), w("EMBED STORE 'k1' [0.0, 2.0, 0.5]", false), w("NODE CREATE person { name: 'c' }", false), Stmt::Rollback("c1".into()), w("EMBED STORE 'k2' [2.0, 2.0, 0.5]", false)]),
+        (Opts { max: 10, auto: false, bloom: true }, vec![w("NODE CREATE person { name: 'a' }", false), w("NODE CREATE person { name: 'b' }", false), w("EDGE CREATE 1 -> 2 : knows", false), w("EMBED STORE 'k0' [1.0, 0.0, 0.5]", false), cp("c1"), w("NODE DELETE 1", false), w("EMBED DELETE 'k0'", false), w("EMBED STORE 'k1' [0.0, 2.0, 0.5]", false), Stmt::Rollback("c1".into()), w("EMBED STORE 'k2' [2.0, 2.0, 0.5]", false)]),
         // retention: max 2, three checkpoints, every retained one can be rolled back to (no rollback before)
-        (2, vec![w("EMBED STORE 'k0' [1.0, 0.0, 0.5]", false), Stmt::Checkpoint("c1".into(), 1001), w("EMBED STORE 'k1' [1.0, 1.0, 0.5]", false), Stmt::Checkpoint("c2".into(), 1002), w("EMBED STORE 'k2' [1.0, 2.0, 0.5]", false), Stmt::Checkpoint("c3".into(), 1003), Stmt::List, Stmt::Rollback("c1".into()), Stmt::Rollback("c3".into())]),
+        (plain(2), vec![w("EMBED STORE 'k0' [1.0, 0.0, 0.5]", false), cp("c1"), w("EMBED STORE 'k1' [1.0, 1.0, 0.5]", false), cp("c2"), w("EMBED STORE 'k2' [1.0, 2.0, 0.5]", false), cp("c3"), Stmt::List, Stmt::Rollback("c1".into()), Stmt::Rollback("c3".into())]),
+        // retention over a mix of manual and automatic checkpoints (taken before destructive statements): the newest 2 stay
+        (Opts { max: 2, auto: true, bloom: false }, vec![w("EMBED STORE 'k0' [1.0, 0.0, 0.5]", false), cp("m1"), w("EMBED STORE 'k1' [1.0, 1.0, 0.5]", false), w("EMBED DELETE 'k0'", false), w("EMBED STORE 'k2' [1.0, 2.0, 0.5]", false), w("EMBED DELETE 'k1'", false), Stmt::List, Stmt::Rollback("auto-before-embed-delete".into())]),
+        (Opts { max: 3, auto: true, bloom: true }, vec![w("CREATE TABLE t0 (id INT, name TEXT)", true), w("INSERT INTO t0 (id, name) VALUES (1, 'a')", true), cp("m1"), w("NODE CREATE person { name: 'a' }", false), cp("m2"), w("NODE DELETE 1", false), w("EMBED STORE 'k1' [1.0, 1.0, 0.5]", false), w("EMBED DELETE 'k1'", false), w("DELETE FROM t0 WHERE id = 1", true), Stmt::List]),
     ];
-    for (max, st) in &corpus {
-        let (t, h, nt) = run_script(*max, st, &mut dist);
+    // sixteen checkpoints named "0".."f" (a user numbering checkpoints), one more, then ROLLBACK TO the name that equals the
+    // first character of that last checkpoint's id: the NAMED checkpoint must be restored, not the one whose id starts so
+    for bloom in [false, true] {
+        let mut st = vec![];
+        for (i, c) in "0123456789abcdef".chars().enumerate() {
+            st.push(w(&format!("EMBED STORE 'k{}' [{i}.0, 1.0, 0.5]", i % 3), false));
+            st.push(cp(&c.to_string()));
+        }
+        st.push(w("EMBED STORE 'k0' [99.0, 1.0, 0.5]", false));
+        st.push(cp("cafe"));
+        st.push(w("EMBED STORE 'k1' [98.0, 1.0, 0.5]", false));
+        st.push(Stmt::RollbackNamedLikeNewestId);
+        corpus.push((Opts { max: 32, auto: false, bloom }, st));
+    }
+    for (o, st) in &corpus {
+        let (t, h, nt) = run_script(*o, st, &mut dist);
         script.push(&t, &format!("corpus {h}"), nt);
     }
     let n = args.budget(70, 2500);
     for _ in 0..n {
-        let (max, st) = gen_script(&mut rng, &mut dist);
-        dist.hit(&format!("script.max.{max}"));
-        let (t, h, nt) = run_script(max, &st, &mut dist);
+        let (o, st) = gen_script(&mut rng, &mut dist);
+        dist.hit(&format!("script.max.{}", o.max));
+        dist.hit(if o.auto { "script.auto_checkpoints" } else { "script.manual_only" });
+        dist.hit(if o.bloom { "script.bloom_store" } else { "script.plain_store" });
+        let (t, h, nt) = run_script(o, &st, &mut dist);
         script.push(&t, &h, nt);
     }
 
@@ -362,7 +429,7 @@ fn main() {
     for i in 0..nt {
         let max = rng.range(1, 2) as usize;
         let total = max + rng.range(1, 3) as usize;
-        let r = new_router(max, true);
+        let r = new_router(Opts { max, auto: false, bloom: false }, true);
         tensor_checkpoint::verif_clock::set(Some(5000));
         let mut created = vec![];
         for j in 0..total {
